@@ -6,6 +6,7 @@ replay file can regenerate it.
 from __future__ import annotations
 
 import copy as _copy
+import pickle
 import io
 import random
 import re
@@ -74,7 +75,7 @@ def g_side(r: random.Random, vmf: VMF, disp: int | None = None) -> Side:
                 v.multi_alpha = Vec4(r.choice([0.0, 0.5, 1.0]), 0.0, r.choice([0.0, 0.25]), r.choice([0.0, 1.0]))
                 if colors:
                     v.multi_colors = [g_vec(r), g_vec(r), g_vec(r), g_vec(r)]
-    if r.random() < 0.3:
+    if r.random() < 0.4:
         s.strata_points = [g_vec(r) for _ in range(r.choice([3, 4, 6]))]
     return s
 
@@ -87,6 +88,11 @@ def g_solid(r: random.Random, vmf: VMF, disp: bool = True) -> Solid:
 
 
 def g_output(r: random.Random) -> Output:
+    if r.random() < 0.3:
+        # a plain output: every optional part at its constructor default, or exactly one of them set (the pickling code
+        # and as_keyvalue() have a short form for these)
+        extra = r.choice([{}, {}, {}, {}, {'param': 'x'}, {'delay': 0.5}, {'times': 1}, {'inst_out': 'inner_relay'}, {'inst_in': 'inner_door'}])
+        return Output(r.choice(['OnTrigger', 'OnUser1']), g_word(r), r.choice(['Trigger', 'Kill']), **extra)
     return Output(r.choice(['OnTrigger', 'OnUser1', 'onpressed']), g_word(r), r.choice(['Trigger', 'FireUser1', 'Kill']),
                   r.choice(['', '1', 'a,b', 'hello world']), r.choice([0.0, 0.5, 2.0]), times=r.choice([-1, 1, 3]),
                   inst_out=r.choice([None, None, 'inner_relay']), inst_in=r.choice([None, None, 'inner_door']),
@@ -183,9 +189,16 @@ def copy_variants(kind: str) -> dict[str, tuple[Callable[[Any, VMF], Any], bool]
     if kind == 'EntityFixup':
         return {'EntityFixup(copy_values())': (lambda o, m: EntityFixup(o.copy_values()), True),
                 'copy.copy': (lambda o, m: _copy.copy(o), True),
-                'copy.deepcopy': (lambda o, m: _copy.deepcopy(o), True)}
+                'copy.deepcopy': (lambda o, m: _copy.deepcopy(o), True),
+                'pickle': (lambda o, m: pickle.loads(pickle.dumps(o)), True)}
     if kind == 'Keyvalues':
-        return {'copy()': (lambda o, m: o.copy(), True), 'copy.deepcopy': (lambda o, m: _copy.deepcopy(o), True)}
+        return {'copy()': (lambda o, m: o.copy(), True), 'copy.deepcopy': (lambda o, m: _copy.deepcopy(o), True),
+                'pickle': (lambda o, m: pickle.loads(pickle.dumps(o)), True)}
+    if kind == 'Output':
+        # Output defines __getstate__ / __setstate__: copy.copy, copy.deepcopy and pickle all go through that pair
+        return {'copy()': (lambda o, m: o.copy(), True), 'copy.copy': (lambda o, m: _copy.copy(o), True),
+                'copy.deepcopy': (lambda o, m: _copy.deepcopy(o), True),
+                'pickle': (lambda o, m: pickle.loads(pickle.dumps(o)), True)}
     return {'copy()': (lambda o, m: o.copy(), True)}
 
 
